@@ -114,6 +114,8 @@ def run(ctx):
     groups.append(("exhaustive-tokens-core", core, (True,), "always"))
     wide = sc.tok_exhaustive(sc.TOK_WIDE, 3)
     groups.append(("exhaustive-tokens-wide", wide, (True, False), "always"))
+    for k, v in sc.boundary_family().items():
+        groups.append(("boundary-" + k, v, (True, False), "shared"))
     seqs, shapes = [], {}
     for _ in range(ctx.n(5000, 200000)):
         s, sh = shared_sequence(ctx.rng)
@@ -176,7 +178,8 @@ def run(ctx):
               samples=[{"case": cases[k], "impl": impl[k][0][:160], "verdict": impl[k][1]} for k in (2 * len(ex) - 4, 2 * len(ex) + len(core) // 3, len(cases) - 2 * len(FINDING_SET) - 3, len(cases) - 2)],
               rule="exhaustive: all %d strings of <=3 symbols over a %d-symbol byte alphabet; token-level: all %d sequences of <=%d lexemes over "
                    "( ) ; ... ! newline a blank and all %d sequences of <=3 lexemes over a %d-lexeme alphabet (multi-character operators, "
-                   "comments, unit numbers as single symbols: state carried across tokens - nParen, insertSemi, pending unit); %d seeded "
+                   "comments, unit numbers as single symbols: state carried across tokens - nParen, insertSemi, pending unit); the deterministic boundary-value family of scan_common.boundary_family (escapes, UTF-8 encodings, digit/radix "
+                   "edges, //line numbers); %d seeded "
                    "shared-lexeme sequences (safe generator: non-keyword identifiers, Go literals, unit/rat/imag suffixes, shared operators, "
                    "// /* */ and # comments, odd bytes; nothing of the finding-set dimensions); %d seeded stateful sequences of 4-12 lexemes; %d "
                    "mutated/unshared sequences; the fixed finding set (%d inputs). Every case is a tpl/scanner run (K-diff with the Tpl "
